@@ -98,13 +98,20 @@ def _index_roles(f, dirparam):
     params = f.params()
     roles = {}
     used_as_index = set()
+    # index lists built from the parameters (`other_axes = [i1, i2]; x[other_axes]`) index with each of their elements
+    lists = {}
+    for st in ast.walk(f.node):
+        if isinstance(st, ast.Assign) and len(st.targets) == 1 and isinstance(st.targets[0], ast.Name) and isinstance(st.value, (ast.List, ast.Tuple)) \
+                and st.value.elts and all(isinstance(e, ast.Name) and e.id in params for e in st.value.elts):
+            lists[st.targets[0].id] = [e.id for e in st.value.elts]
     for n in ast.walk(f.node):
         if isinstance(n, ast.Subscript):
             for m in ast.walk(n.slice):
-                if isinstance(m, ast.Name) and m.id in params:
-                    used_as_index.add(m.id)
+                ids = [m.id] if (isinstance(m, ast.Name) and m.id in params) else (lists.get(m.id, []) if isinstance(m, ast.Name) else [])
+                for pid in ids:
+                    used_as_index.add(pid)
                     if isinstance(n.value, ast.Name) and n.value.id == dirparam:
-                        roles[m.id] = "moving"
+                        roles[pid] = "moving"
     for p in used_as_index:
         roles.setdefault(p, "static")
     return roles
@@ -232,8 +239,10 @@ def r_tournament(idx, rep, rule="R-TOURNAMENT"):
     n_leaf = [0]
 
     def walk(body, beaten, path):
-        for st in body:
+        # path walk: what follows an `if` belongs to every arm that does not return (early-return and nested-else styles give the same paths)
+        for i_, st in enumerate(body):
             if isinstance(st, ast.If):
+                rest = list(body[i_ + 1:])
                 t = ncmp(st.test)
                 where = "%s:%d" % (m.relpath, st.lineno)
                 key = "%s|comparison %s" % (f.key, " > ".join(path + ["?"]))
@@ -248,8 +257,9 @@ def r_tournament(idx, rep, rule="R-TOURNAMENT"):
                           "axis %s before axis %s" % (px, py))
                 if not okpair:
                     return
-                walk(st.body, beaten | {py}, path + ["%s>%s" % (px, py)])
-                walk(st.orelse, beaten | {px}, path + ["%s>%s" % (py, px)])
+                walk(list(st.body) + rest, beaten | {py}, path + ["%s>%s" % (px, py)])
+                walk(list(st.orelse) + rest, beaten | {px}, path + ["%s>%s" % (py, px)])
+                return
             else:
                 for c in ast.walk(st):
                     if isinstance(c, ast.Call) and isinstance(c.func, ast.Name) and c.func.id == "_box_face":
@@ -265,7 +275,10 @@ def r_tournament(idx, rep, rule="R-TOURNAMENT"):
                         rep.check(sorted(ix) == [0, 1, 2] and len(undefeated) == 1 and ix[0] in undefeated, rule, key, where,
                                   "after the comparisons %s the only axis that won all its comparisons is %s, but _box_face is given face %s (indices %s)"
                                   % (path, sorted(undefeated), ix[0], ix), "face %s" % ix[0])
-    walk([st for st in f.node.body if isinstance(st, ast.If)], set(), [])
+                if isinstance(st, ast.Return):
+                    return
+    first_if = next((i_ for i_, st in enumerate(f.node.body) if isinstance(st, ast.If)), len(f.node.body))
+    walk(list(f.node.body[first_if:]), set(), [])
     if n_leaf[0] < 4:
         rep.error("R-TOURNAMENT: only %d _box_face leaves found in _case_no_zeros" % n_leaf[0])
 
